@@ -860,6 +860,23 @@ def _apply_proj(e, proj, fn, seen, depth):
                 e = ("opaque", e)
         elif "f" in p:
             name = p["f"]
+            if e[0] == "phi" and any(a[0] == "partial" for a in e[1]):
+                # a field of a value joined with partial stores into it: the store into this very field supplies the
+                # field's value, stores into other fields do not affect it
+                key = "." + name
+                alts = []
+                for a in e[1]:
+                    if a[0] == "partial":
+                        if a[1] and a[1][0] == key:
+                            alts.append(a[2] if len(a[1]) == 1 else ("partial", a[1][1:], a[2]))
+                        continue
+                    alts.append(_apply_proj(a, [p], fn, seen, depth))
+                uniq = []
+                for a in alts:
+                    if a not in uniq:
+                        uniq.append(a)
+                e = uniq[0] if len(uniq) == 1 else ("phi", tuple(uniq))
+                continue
             if e[0] == "agg":
                 hit = [v for n, v in e[3] if n == name]
                 e = hit[0] if hit else ("field", e, name)
